@@ -11,12 +11,14 @@
 (*               sets read as  ipos \cup (Sigma \ ineg)  when ineg # {}    *)
 (*               and as ipos otherwise (CharacterClass.__contains__/__str__)*)
 (* The refinement invariant  Refines  says that the pair denotes `den`.    *)
-(* Variant = "fixed" is the repaired algorithm (proposed_fixes/C12-*.diff) *)
-(* and must satisfy Refines; Variant = "pinned" transcribes the algorithm  *)
-(* of the pinned tree (add: negative |= V for every negated escape;        *)
-(* complement(): swap; __isub__ as written) and TLC refutes Refines for it *)
-(* with a shortest counterexample ([^a\D]) -- the check reports that as a  *)
-(* note, the verdict on the CODE comes from the replay of `den`.           *)
+(* Variant = "fixed" is the repaired algorithm (proposed_fixes/C12-character- *)
+(* class-algebra.diff, in the tree since commit b292dd3) and must satisfy   *)
+(* Refines; Variant = "pinned" transcribes the algorithm as it was BEFORE   *)
+(* that repair (add: negative |= V for every negated escape; complement():  *)
+(* swap; __isub__ as written) and TLC refutes Refines for it with a         *)
+(* shortest counterexample ([^5\D]).  The thorough tier dumps it as well    *)
+(* and reports whether a failing class is the set the old algorithm         *)
+(* produced; the verdict on the CODE always comes from the replay of `den`. *)
 (*                                                                         *)
 (* The dumped state graph is the test plan: state = class expression,      *)
 (* den = expected set of matching characters.                              *)
